@@ -79,5 +79,12 @@ GenSound == \A op \in Ops(A) : \A o \in Outcomes(op, A, B) : Accepts(op, A, B, o
 (* emit one program per maximal behaviour (simulation mode) *)
 EmitProgram == depth = MaxDepth => PrintT(ToJson([init |-> start, prog |-> hist]))
 (* emit every explored (state, operation) pair once (exhaustive mode) *)
+(* "query - mutate - query" sandwiches: a derived table is looked at and discarded, the receiver is then changed IN PLACE
+   (append), and every operation follows.  This is the shape in which state hidden inside the object (a cache of derived
+   data that the mutation forgets to drop) becomes observable; as an ACTION_CONSTRAINT it restricts TLC to these programs. *)
+Sandwich == CASE depth = 0 -> hist'[1].name \in {"peek", "group_by", "cutby"}
+              [] depth = 1 -> hist'[2].name = "append"
+              [] OTHER -> TRUE
+EmitSandwich == Sandwich /\ (depth' = MaxDepth => PrintT(ToJson([init |-> start, prog |-> hist'])))
 EmitStep == PrintT(ToJson([A |-> A, B |-> B, op |-> hist'[Len(hist')]]))
 =============================================================================
